@@ -43,6 +43,8 @@ def configs(tier, seed):
                         # names with dots in them ("PM2.5", "v1.2"): still one file per array
                         out.append(dict(h="export", op=form + "dots", key=key + "/dotted_names", procs=procs, flows=[list(p) for p in fs], fdims=fdims, stocks=sc, form=form,
                                         name_prefix="PM2.5 plant v1.2 "))
+                    if form == "csv" and rot == 1 and len(fs) >= 2 and i % 2 == 0:
+                        out.append(dict(h="export", op=form + "runs", key=key + "/names_differing_in_separator_runs", procs=procs, flows=[list(p) for p in fs], fdims=fdims, stocks=sc, form=form, name_style="runs"))
                     if form == "csv" and rot == 0 and i % 3 == 2:
                         # flows first, then stocks, into ONE directory, with real files; flow names that end like a stock file
                         out.append(dict(h="export", op=form + "dir", key=key + "/same_directory", procs=procs, flows=[list(p) for p in fs], fdims=fdims, stocks=sc, form=form,
